@@ -1,0 +1,50 @@
+//go:build verif
+
+// Contracts for the scan cursor (C12); comment-only, read by /verif/govc, never compiled into olric.
+//
+// A cursor c addresses the table with coefficient c / tableSize at position c % tableSize. Tables are looked up by
+// coefficient; after compaction the coefficients present have holes.
+
+package kvstore
+
+// cinv: every coefficient maps to a usable table of tableSize bytes; sizes keep the cursor arithmetic exact.
+//@ pred (k *KVStore) cinv() = k != nil && k.tablesByCoefficient != nil && 0 < k.tableSize && k.tableSize <= 4294967296 &&
+//@     (forall c uint64 {k.tablesByCoefficient[c]} :: c in k.tablesByCoefficient ==> c < 1073741824 && k.tablesByCoefficient[c] != nil && k.tablesByCoefficient[c].allocated == k.tableSize)
+
+//@ func (k *KVStore) findCoefficient$1(i int, j int) bool
+//@   props C12
+//@   flag termination
+//@   requires #idx: 0 <= i && i < len(sortedCoefficients) && 0 <= j && j < len(sortedCoefficients)
+//@   ensures #less [C12]: result == (sortedCoefficients[i] < sortedCoefficients[j])
+//@   modifies nothing
+
+// The smallest coefficient present that is greater than the given one; an error iff there is none.
+//@ func (k *KVStore) findCoefficient(coefficient uint64) (uint64, error)
+//@   props C12
+//@   flag termination
+//@   requires #map: k != nil && k.tablesByCoefficient != nil
+//@   ensures #present [C12]: result.1 == nil ==> result.0 in k.tablesByCoefficient && result.0 > coefficient
+//@   ensures #smallest [C12]: result.1 == nil ==> forall c uint64 :: c in k.tablesByCoefficient && c > coefficient ==> c >= result.0
+//@   ensures #none_greater [C12]: result.1 != nil ==> forall c uint64 :: c in k.tablesByCoefficient ==> c <= coefficient
+//@   loop 0 invariant #collected: (cap(sortedCoefficients) == 0 || fresh(sortedCoefficients)) && off(sortedCoefficients) == 0 &&
+//@                (forall m int :: 0 <= m && m < len(sortedCoefficients) ==> sortedCoefficients[m] in k.tablesByCoefficient) &&
+//@                (forall c uint64 :: visited(c) ==> exists m int :: 0 <= m && m < len(sortedCoefficients) && sortedCoefficients[m] == c)
+//@   loop 0 invariant #temporaries0: onlyfresh()
+//@   loop 1 invariant #passed: forall m int :: 0 <= m && m <= rangeindex && m < len(sortedCoefficients) ==> sortedCoefficients[m] <= coefficient
+//@   loop 1 invariant #temporaries1: onlyfresh()
+//@   modifies nothing
+
+// One step of a scan. The cursor handed back addresses an existing table, never jumps over a table that has
+// not been scanned, and moves strictly forward; 0 means there is no later table.
+//@ func (k *KVStore) scanCommon(cursor uint64, expr string, count int, f func(e storage.Entry) bool) (uint64, error)
+//@   props C12
+//@   flag termination
+//@   requires #cinv: k.cinv()
+//@   requires #cursor_range: cursor < 4611686018427387904
+//@   ensures #lands_on_a_table [C12]: result.1 == nil && result.0 != 0 ==> (result.0 / k.tableSize) in k.tablesByCoefficient
+//@   ensures #no_table_skipped [C12]: result.1 == nil && result.0 != 0 ==> forall c uint64 :: c in k.tablesByCoefficient && cursor / k.tableSize < c && c < result.0 / k.tableSize ==>
+//@                !((cursor / k.tableSize) in k.tablesByCoefficient) && (forall d uint64 :: d in k.tablesByCoefficient && d > cursor / k.tableSize ==> d >= c)
+//@   ensures #moves_forward [C12]: result.1 == nil && result.0 != 0 ==> result.0 > cursor
+//@   ensures #end_only_after_last_table [C12]: result.1 == nil && result.0 == 0 && len(k.tables) > 0 ==> forall c uint64 :: c in k.tablesByCoefficient && c > cursor / k.tableSize ==>
+//@                !((cursor / k.tableSize) in k.tablesByCoefficient) && (forall d uint64 :: d in k.tablesByCoefficient && d > cursor / k.tableSize ==> d >= c)
+//@   modifies nothing
